@@ -171,7 +171,24 @@ func runFaulted(in *caseInput, f *faultSpec, stats *faultStats) ([]violation, []
 		if i > 0 {
 			prev = steps[i-1].group
 		}
-		vs, _ := judgeLeaseState(stage, sp.st, lid, sp.group, prev, all, in.Foreign, nil, false)
+		// A provider restarted with network policies switched ON whose first Deploy is aborted before it
+		// wrote any workload leaves the state the previous configuration produced; that state is judged
+		// under the previous settings. As soon as the disturbed Deploy has written a workload under the
+		// new settings, the new settings' demands apply.
+		jst := sp.st
+		if i > 0 && sp.st.NetworkPoliciesEnabled && !steps[i-1].st.NetworkPoliciesEnabled {
+			wrote := false
+			for _, act := range kc.Actions() {
+				if act.GetResource().Resource == "deployments" && (act.GetVerb() == "create" || act.GetVerb() == "update") {
+					wrote = true
+				}
+			}
+			if !wrote {
+				jst = steps[i-1].st
+				stage += " [no workload written yet: judged under the previous settings]"
+			}
+		}
+		vs, _ := judgeLeaseState(stage, jst, lid, sp.group, prev, all, in.Foreign, nil, false)
 		out = append(out, relabelFault(vs, all[ns])...)
 		out = append(out, objectsOutside(stage, all, ns)...)
 		if stats != nil {
